@@ -47,4 +47,17 @@ META.update({
         technique="property-based testing (rapid): predicted observations from the sequential composition model + counter identities over the recorded log",
     ),
 })
+META.update({
+    "C02": dict(
+        text="Model-based property testing of the retry policy: sequential scenarios (a retry policy alone or outermost/innermost of a short stack, every budget incl. 0, 1 and unlimited, overlapping handle/abort conditions, ReturnLastFailure, max duration) are compared with the reference model (invocation count, stopping reason, ExceededError carrying the last outcome, OnRetry/OnRetryScheduled/OnAbort/OnRetriesExceeded); up to 32 goroutines then run different scripts through the same policy instances at once and each execution must equal the sequential model of its own script (private budget); with a real max duration, no attempt may follow a failure returned after the duration elapsed. Sampling, not proof.",
+        design_ref="DESIGN.md section 6, C02", note=_COMPOSE_NOTE + " Concurrent interleavings are sampled by the Go scheduler, not enumerated.",
+        technique="property-based testing (rapid): differential testing against the sequential model, per-execution under concurrency; history invariant for the real max duration",
+    ),
+    "C12": dict(
+        text="Truth-table property testing of failure classification: registration lists of HandleErrors/HandleErrorTypes/HandleResult/HandleIf x outcomes over a rich error universe are evaluated through all three carriers (fallback applied or not, retry retries or not, breaker counts failure or success via executions and RecordResult/RecordError) and, for AbortOn*/CancelOn*, through a retry policy and a hedge policy; the verdicts are compared with an independent matcher written from the documented rules. Lists of length 0..2 over a 22-condition alphabet are enumerated exhaustively against all 80 outcomes on every quick run; longer lists are random; native fuzzing in thorough.",
+        design_ref="DESIGN.md section 6, C12",
+        note="Trusts the oracle matcher (harness/compose/universe.go: errors.Is, a type walk over Unwrap chains/trees, equality for results only on error-free outcomes, named predicates). Result conditions in abort/cancel lists on error-carrying outcomes are not checked (L5). The hedge carrier repeats a trial whose verdict disagrees, to rule out scheduling effects (L8).",
+        technique="property-based testing (rapid) + exhaustive enumeration of the short-list layer: differential testing of three carriers against an independent classification oracle; native fuzzing in thorough",
+    ),
+})
 NOT_APPLICABLE = [dict(property_id=p, reason="check not built yet in this session (work in progress; DESIGN.md section 6 describes the planned property-based check)") for p in ALL if p not in META]
